@@ -37,6 +37,11 @@ def run_history(rec, sc, assemblage=None, fractions=None, F0=None, collect=None)
     L0 = np.asarray(get_L(0.0, get_x(0.0)), dtype=float)
     s0 = float(np.abs(np.linalg.eigvalsh((L0 + L0.T) / 2)).max())
     dt = (sc["strain"] / sc["nupd"]) / s0 if s0 > 0 else (0.5 / (float(np.abs(L0).max()) or 1.0)) / sc["nupd"]
+    if sc.get("period"):        # flow families tied to the update length (MT.COINCIDENT_FLOWS): every update lasts one period
+        dt = float(sc["period"]) / float(sc.get("rate", 1.0))
+    if sc.get("regime_switch_update") is not None and sc.get("regime_switch"):
+        # get_regime switches exactly at the start of update k (the regime left on the object by the previous call differs)
+        sc["regime_switch"][2] = float(sc["regime_switch_update"]) * dt
     out = dict(sc=sc, updates=[], fails=[], mineral=m, params=params, F_hist=[F.copy()], strain=0.0,
                desc=desc, get_L=get_L, get_x=get_x, dt=dt)
     frozen = [(o.tobytes(), f.tobytes()) for o, f in zip(m.orientations, m.fractions)]
@@ -86,9 +91,14 @@ def run_history(rec, sc, assemblage=None, fractions=None, F0=None, collect=None)
 def validate_traces(chk, hist, bad, rtol_rhs=1e-9):
     """Trace validation: feed what the oracles produced to the extracted glue model."""
     sc, m, params = hist["sc"], hist["mineral"], hist["params"]
+    MT.validate_problems(chk, hist, bad)     # LSODA's constructor arguments vs Model_minerals.lsoda_problem_of
     lines, meta = [], []
     for u in hist["updates"]:
         tr = u["trace"]
+        if tr.error is None and not tr.step_ys and tr.F_returned is not None:
+            # the model ties the stored snapshot and the returned F to the integrator's last vector: an update that completed
+            # without a single LSODA step (a shortcut around the solver) has nothing to be tied to
+            bad.append((sc, f"update {u['index']}: completed without any LSODA step (stored snapshot / returned F do not come from the integrator)"))
         if tr.error is not None or not tr.step_ys:
             continue
         k = u["index"]
@@ -162,6 +172,10 @@ def scenarios(chk, tier, regimes=(4, 4, 4, 6, 0, 7), extra_diffusion=True):
         sc["regime_switch"] = [given, given, 0.0]
         scs.append(sc)
     scs.append(MT.scenario(rng, regime=4, nupd=2, lkind="shared"))
+    # velocity gradients that coincide exactly at the start, midpoint and end of every update and vary in between (own stream)
+    scs += MT.coincident_scenarios(np.random.default_rng([chk.seed, 0xC06D]), tier, regimes=(4, 6, 4, 0, 7))
+    # grain counts on block boundaries (independent stream; the scenarios above are unchanged)
+    scs += MT.block_scenarios(np.random.default_rng([chk.seed, 0xB10C]), tier, regimes=(4, 6, 4, 0))
     if tier == "thorough":
         scs.append(MT.scenario(rng, regime=4, n=500, nupd=2))
         scs.append(MT.scenario(rng, regime=4, n=20, nupd=100, strain=3.0))
@@ -189,8 +203,9 @@ def run(chk):
         "NOT proved, measured on every stored snapshot of this run: orthonormality drift bound 5e-3 + 1e-3 (N + 2 strain), right-handedness, finiteness in binary64",
     ]
     chk.cov["rule"] = ("histories = every accepted (phase, fabric) x both dislocation regimes + seeded random scenarios over regimes {4,6,0,7}, "
-                       "7 flow families (simple/pure/axisymmetric/general/non-zero trace/time-dependent/position-dependent along a pathline), "
-                       "4 initial texture families, 2..24 grains, 1..4 updates, M* in [0,200], chi in [0,0.9] (20% chi=0), lambda* in [0,10]; "
+                       "7 flow families (simple/pure/axisymmetric/general/non-zero trace/time-dependent/position-dependent along a pathline) + stopping / spin / shared-array "
+                       "flows + 5 families whose samples at the start, midpoint and end of every update coincide exactly (cosine periods, pulses, shear zones, closed pathline), "
+                       "4 initial texture families, 2..24 grains + block-boundary grain counts (63..1024 [thorough ..4096]: powers of two and neighbours, multiples of 64/128/256/1000/1024), 1..4 updates, M* in [0,200], chi in [0,0.9] (20% chi=0), lambda* in [0,10]; "
                        "every update is one case (the model must reproduce the stored snapshot from LSODA's last vector) and up to 6 recorded "
                        "eval_rhs calls per update are further cases; non-trivial = the texture changed / the rates are not all zero")
     bad, mon = [], []
